@@ -161,10 +161,8 @@ theorem procWrite_ok (s s' : St) (c : Ctx) (args : Bytes) (w : Rfc.Wcc) (k com :
                           split at h
                           · simp [res] at h
                           · rename_i s1 pre hpre
-                            simp only at h
                             split at h
                             · -- the write failed: the reply is not NFS3_OK with a writeOk body
-                              rename_i st hwr
                               simp only [res, Prod.mk.injEq, Outcome.res.injEq, Rfc.Res.mk.injEq] at h
                               exact absurd h.2.2 (by simp)
                             · rename_i s2 k' hwr
@@ -177,12 +175,14 @@ theorem procWrite_ok (s s' : St) (c : Ctx) (args : Bytes) (w : Rfc.Wcc) (k com :
                                 have hs1 : s1.fs = s.fs := by have := getAttr_fs s c.now n; rw [hpre] at this; exact this
                                 have hs3 : s3.fs = s2.fs := by have := getAttr_fs s2 c.now n; rw [hpost] at this; exact this
                                 -- open the write
+                                unfold writeOp at hwr
                                 split at hwr
                                 · simp at hwr
                                 · rename_i hoffmax
                                   split at hwr
                                   · simp at hwr
                                   · rename_i fs1 kk hwa
+                                    simp only at hwr
                                     have hfs2 : s2.fs = fs1 ∧ k' = kk := by
                                       split at hwr
                                       · simp only [Except.ok.injEq, Prod.mk.injEq] at hwr
